@@ -22,7 +22,7 @@ TARGETS = ['model/M_C14_Dof.vo', 'model/M_C02_Assembly.vo', 'proofs/L_C14.vo', '
 COQ_FILES = ['model/M_C14_Dof.v', 'model/M_C02_Assembly.v', 'proofs/L_C14.v', 'proofs/L_C02.v', 'proofs/L_C02_refs.v', 'props/P_C02.v']
 TRUSTED = ['Coq 8.16.1 kernel + vm_compute (no native_compute)',
            'hand-written model of assemble_sparse_stiffness_matrix (boolean-mask ravel order, coo_matrix duplicate summation) and of the '
-           '.at[elemIds].set block loops; tied to the source only by the exact correspondence on seeded random integer blocks',
+           '.at[elemIds].set block loops, and of the gather semantics of FunctionSpace.evaluate_on_block / integrate_over_block; tied to the source only by the exact correspondence on seeded random integer data',
            'JAX autodiff: jax.hessian of the element / total energy is taken to be the true second derivative (both sides of the L2 comparison use it)',
            'correspondence harness (case generators, tolerance 1e-9 * max(1, |H|_inf) for K vs H and symmetry)']
 ASSUMPTIONS = ['node ids in range, rectangular connectivity, components < number of fields (as C14)',
